@@ -12,6 +12,7 @@ PLAN = {
     "C15": ["serverconn", "tlspump", "live"],
     "C11": ["clientconn", "c03"],
     "C20": ["tlspump", "live"],
+    "C08": ["url", "serverconn"],
 }
 
 if __name__ == "__main__":
